@@ -48,7 +48,7 @@ func init() {
 				work := e.work(lw)
 				chk := k > 0 && !e.query()
 				e.run(func() {
-					fm, fn, fa, flda, ft, fw, flw := e.fdim("m", m), e.fdim("n", n), fs(e, "shortA", a, chk), e.fld("lda", lda, max(1, n)), ftau(chk), fs(e, "shortWork", work, true), e.flw(lw, mn)
+					fm, fn, fa, flda, ft, fw, flw := e.fdim("m", m), e.fdim("n", n), fs(e, "shortA", a, chk), e.fld("lda", lda, max(1, n)), ftau(chk), e.fwork(work), e.flw(lw, mn)
 					switch f.name {
 					case "Dgeqrf":
 						impl.Dgeqrf(fm, fn, fa, flda, ft, fw, flw)
@@ -96,7 +96,7 @@ func init() {
 			jpvt.s[e.g.Intn(n)] = []int{-2, n}[e.c.Bad]
 		}
 		e.run(func() {
-			impl.Dgeqp3(e.fdim("m", m), e.fdim("n", n), fs(e, "shortA", a, chk), e.fld("lda", lda, max(1, n)), fx(e, "Jpvt", jpvt, chk), fs(e, "shortTau", tau, chk), fs(e, "shortWork", work, true), e.flw(lw, mn))
+			impl.Dgeqp3(e.fdim("m", m), e.fdim("n", n), fs(e, "shortA", a, chk), e.fld("lda", lda, max(1, n)), fx(e, "Jpvt", jpvt, chk), fs(e, "shortTau", tau, chk), e.fwork(work), e.flw(lw, mn))
 		})
 	})
 
@@ -167,7 +167,7 @@ func init() {
 					if g.name == "Dorgqr" && e.query() && e.c.Loose != 0 {
 						flda = 0 // documented: lda is not examined by a workspace query
 					}
-					fa, ft, fw, flw := fs(e, "shortA", a, chk), ftau(chk), fs(e, "shortWork", work, true), e.flw(lw, mn)
+					fa, ft, fw, flw := fs(e, "shortA", a, chk), ftau(chk), e.fwork(work), e.flw(lw, mn)
 					switch g.name {
 					case "Dorgqr":
 						impl.Dorgqr(fm, fn, fk, fa, flda, ft, fw, flw)
@@ -253,7 +253,7 @@ func init() {
 				chk := nz && !e.query()
 				e.run(func() {
 					fm, fn, fk := e.fdim("m", m), e.fdim("n", n), e.fint("kGTNQ", e.fdim("k", k), nq+1, true)
-					fa, flda, ft, fc, fldc, fw, flw := fs(e, "shortA", a, chk), e.fld("lda", lda, ldaMin), ftau(chk), fs(e, "shortC", c, chk), e.fld("ldc", ldc, max(1, n)), fs(e, "shortWork", work, true), e.flw(lw, mn)
+					fa, flda, ft, fc, fldc, fw, flw := fs(e, "shortA", a, chk), e.fld("lda", lda, ldaMin), ftau(chk), fs(e, "shortC", c, chk), e.fld("ldc", ldc, max(1, n)), e.fwork(work), e.flw(lw, mn)
 					if p.name == "Dormqr" {
 						impl.Dormqr(fside, ftrans, fm, fn, fk, fa, flda, ft, fc, fldc, fw, flw)
 					} else {
@@ -379,7 +379,7 @@ func init() {
 			e.queryMayWrite = true
 		}
 		e.run(func() {
-			impl.Dgels(ftrans, e.fdim("m", m), e.fdim("n", n), e.fdim("nrhs", nrhs), fs(e, "shortA", a, chkA), e.fld("lda", lda, max(1, n)), fs(e, "shortB", b, chkB), e.fld("ldb", ldb, max(1, nrhs)), fs(e, "shortWork", work, true), e.flw(lw, minwrk))
+			impl.Dgels(ftrans, e.fdim("m", m), e.fdim("n", n), e.fdim("nrhs", nrhs), fs(e, "shortA", a, chkA), e.fld("lda", lda, max(1, n)), fs(e, "shortB", b, chkB), e.fld("ldb", ldb, max(1, nrhs)), e.fwork(work), e.flw(lw, minwrk))
 		})
 	})
 }
